@@ -190,6 +190,18 @@ impl Inflights {
         self.buffer_capacity() > 0
     }
 
+    /// Verification hook: read-only view `(start, count, cap, incoming_cap, buffer)`.
+    #[cfg(tikv_raft_rs_verif)]
+    pub fn verif_view(&self) -> (usize, usize, usize, Option<usize>, Vec<u64>) {
+        (
+            self.start,
+            self.count,
+            self.cap,
+            self.incoming_cap,
+            self.buffer.clone(),
+        )
+    }
+
     /// Free unused memory
     #[inline]
     pub fn maybe_free_buffer(&mut self) {
